@@ -48,7 +48,7 @@ def plan(tier, seed):
 def mandatory_bins(tier):
     b = ["flip_in:" + f for f in FIELDS + BEC2_FIELDS]
     b += ["cut_inside_dirsize", "cut_after_signature", "cut_drops_only_trailing_zeros_of_last_payload", "cut_inside_hex_pair", "cut_inside_comments", "cut_removes_only_final_newline",
-          "binary_prefix", "text_prefix", "binary_suffix", "text_suffix", "key_bit_flip_bf3", "key_bit_flip_bec2_decryptor", "key_bit_flip_bec2_rewrapped", "bf3", "bec2",
+          "binary_prefix", "text_prefix", "binary_suffix", "text_suffix", "key_bit_flip_bf3", "key_buffer_changed_in_place_after_a_successful_read", "key_bit_flip_bec2_decryptor", "key_bit_flip_bec2_rewrapped", "bf3", "bec2",
           "bec2_ecc", "encrypted_component", "zero_components", "three_components", "payload_len_1", "payload_len_16", "payload_len_17", "damage_returns_original_content", "payload_longer_than_1024", "two_identical_payloads", "unchecked_read_of_the_same_file_first", "interpreter_in_optimized_mode"]
     return b
 
@@ -185,6 +185,10 @@ def verdict(ns, ctx, a, what, text, detail, key=None, encs=None, changed=True):
     return "same"
 
 
+def idx_of(a):
+    return sum(a.key) + len(a.binary)
+
+
 def run_authentic(ns, ctx, a, rng, full=True):
     ctx.bin(a.kind)
     if a.long_payload:
@@ -296,6 +300,29 @@ def run_authentic(ns, ctx, a, rng, full=True):
             k2[bit // 8] ^= 1 << (bit % 8)
             ctx.bin("key_bit_flip_bf3")
             verdict(ns, ctx, a, "session_key_bit_changed", a.text, {"bit": bit}, key=bytes(k2))
+            if bit % (8 if ctx.tier == "quick" else 1) == idx_of(a) % 8 or ctx.tier != "quick":
+                # history: the file is first read with the RIGHT key, then (a) the same key buffer is changed in place and used again,
+                # (b) the right key object is dropped and the wrong key is a new object, possibly at the same address
+                kb = bytearray(a.key)
+                try:
+                    first = read(ns, a, a.text, kb)
+                except TypeError as e:
+                    ctx.exc(e)
+                    ctx.note("session_key_in_a_bytearray_refused")
+                else:
+                    if G.diff_file(first, a.case):
+                        ctx.violation("authentic_file_read_differs:key_given_as_bytearray", {"diff": G.diff_file(first, a.case)}, {"kind": a.kind, "case": a.case.to_json(), "key": a.key.hex()})
+                    kb[bit // 8] ^= 1 << (bit % 8)
+                    ctx.bin("key_buffer_changed_in_place_after_a_successful_read")
+                    verdict(ns, ctx, a, "session_key_buffer_changed_in_place_after_a_read_with_the_right_key", a.text, {"bit": bit}, key=kb)
+                k_ok = bytes(bytearray(a.key))
+                read(ns, a, a.text, k_ok)
+                adr = id(k_ok)
+                del k_ok
+                k_bad = bytes(k2)
+                if id(k_bad) == adr:
+                    ctx.bin("wrong_key_object_at_the_address_of_the_dropped_right_key")
+                verdict(ns, ctx, a, "session_key_bit_changed_after_a_read_with_the_right_key", a.text, {"bit": bit, "same_address": id(k_bad) == adr}, key=k_bad)
     else:
         # (a) the decryptor holds a key that differs in one bit
         for bi, s in enumerate(a.specs):
@@ -368,4 +395,13 @@ def replay(rec, ctx):
     a.long_payload = a.duplicate_payload = False
     key = bytes.fromhex(rec["reader_key"]) if rec.get("reader_key") else None
     if rec.get("damaged_text") is not None:
+        if key is not None and a.kind == "bf3":
+            # the history variants: a read with the right key first, in the same buffer object
+            kb = bytearray(a.key)
+            try:
+                read(ns, a, rec["damaged_text"], kb)
+                kb[:] = key
+                verdict(ns, ctx, a, "replay_key_buffer_changed_in_place", rec["damaged_text"], {}, key=kb)
+            except Exception as e:
+                ctx.exc(e)
         verdict(ns, ctx, a, "replay", rec["damaged_text"], {}, key=key)
